@@ -1,7 +1,7 @@
 ------------------------------ MODULE MC_Lex ------------------------------
 (* Universes and case emission for C14 (see Lex.tla).  One initial state per *)
-(* input; Laws and Emit are invariants.  Generated once by work/c14/gen_mc.py *)
-(* (literal byte sequences), static afterwards.                             *)
+(* case; Laws and Emit are invariants.  Byte sequences are written as ASCII / *)
+(* UTF-8 codes (e.g. <<124, 124, 124>> is |||).                             *)
 EXTENDS Lex, Json
 
 CONSTANTS Mode,     \* which universe
@@ -220,7 +220,6 @@ Pats == { <<0>>,
 
 ------------------------------------------------------------------------------
 \* item inventories
-D(s) == s                                        \* readability: a digit group
 NumIps == { << <<48>> >>, << <<49>> >>, << <<57>> >>, << <<49, 48>> >>, << <<49>>, <<48>> >>,
             << <<49, 50>>, <<51, 52, 53>> >>, << <<49>>, <<50>>, <<51>> >> }
 NumFps == { <<>>, << <<48>> >>, << <<53>> >>, << <<48, 53>> >>, << <<50>>, <<53>> >>, << <<48, 48>>, <<49>> >> }
